@@ -5,9 +5,16 @@ specification alone that Den(variant) = Den(base) (LSemTrace!Theorem), and the
 rows the real pipeline returns for the variant are validated against
 Den(variant)."""
 import copy
+import json
 
 from harness import ir
 from harness.ir import *  # pylint: disable=wildcard-import,unused-wildcard-import
+
+
+def Unshared(prog):
+  """A deep copy in which no node object is shared between two places (program
+  builders reuse Var objects; in-place rewrites must not see a node twice)."""
+  return json.loads(json.dumps(prog))
 
 
 def Walk(x, fn, _seen=None):
@@ -52,7 +59,7 @@ def PermuteBody(body, rng):
 def Permute(prog, rng):
   """Permutes predicates, rules/facts of each predicate, statement order,
   conjuncts and disjuncts."""
-  p = copy.deepcopy(prog)
+  p = Unshared(prog)
   for pred in p['preds']:
     rng.shuffle(pred['rules'])
     for rule in pred['rules']:
@@ -73,7 +80,7 @@ VAR_POOL = ['x', 'y', 'z', 'x1', 'x2', 'y1', 'a', 'b', 'c', 'n', 'value',
 def RenameVars(prog, rng):
   """Consistent renaming of the variables of each rule (same pool for all
   rules, so names collide across rules; named-argument shorthands excluded)."""
-  p = copy.deepcopy(prog)
+  p = Unshared(prog)
   for pred in p['preds']:
     for rule in pred['rules']:
       names = sorted(gen_all_vars(rule))
@@ -111,7 +118,7 @@ LONG_PREDS = ['LongName' + 'OfAPredicateThatGoesOnAndOn' * 3 + s
 
 def RenamePreds(prog, rng, keywords=False):
   """Consistent renaming of all predicates; returns (prog, map old->new)."""
-  p = copy.deepcopy(prog)
+  p = Unshared(prog)
   names = [pred['name'] for pred in p['preds']]
   pool = list(PRED_POOL)
   rng.shuffle(pool)
@@ -169,7 +176,7 @@ def Intermediates(prog, query_all=True):
 
 def Annotate(prog, assignment):
   """assignment: {pred: plan}.  Returns a variant with annotation lines."""
-  p = copy.deepcopy(prog)
+  p = Unshared(prog)
   ann = list(p.get('ann', []))
   for name, plan in sorted(assignment.items()):
     if plan == 'noinject':
@@ -264,7 +271,7 @@ def Locate(prog, site):
 
 def ApplyForm(prog, kind, site, rng):
   """Returns a variant with the shorthand at `site` toggled."""
-  p = copy.deepcopy(prog)
+  p = Unshared(prog)
   rule, parent, idx = Locate(p, site)
   if kind == 'head_positional_as_named':
     for h in rule['head']:
@@ -302,7 +309,7 @@ def ApplyForm(prog, kind, site, rng):
 def MergeRulesAsDisjunction(prog):
   """several rules <-> one rule with `|`: applicable to predicates whose rules
   have syntactically equal heads.  Returns variant or None."""
-  p = copy.deepcopy(prog)
+  p = Unshared(prog)
   changed = False
   for pred in p['preds']:
     rules = pred['rules']
@@ -321,7 +328,7 @@ def LiftPcalls(prog):
   """functional call in an expression <-> extra conjunct binding
   logica_value.  Lifts every pcall that occurs in a rule body conjunct (not
   nested in an aggregate body, to stay within the same scope) or head."""
-  p = copy.deepcopy(prog)
+  p = Unshared(prog)
   counter = [0]
   changed = [False]
 
@@ -378,7 +385,7 @@ def ShortNamed(prog, rng):
   """`a:` <-> `a: a`.  Renames, per rule, a variable that is the whole value of
   a named argument `f: v` to `f` (when `f` is not yet a variable of the rule
   and only one variable competes for the name) and prints the shorthand."""
-  p = copy.deepcopy(prog)
+  p = Unshared(prog)
   changed = False
   for pred in p['preds']:
     for rule in pred['rules']:
@@ -429,7 +436,7 @@ def SameHeadRules(prog, rng):
   """Gives one multi-rule predicate syntactically equal heads (so that
   `several rules <-> one rule with |` applies): the head of the first rule is
   reused with its variables re-bound in the other rules by renaming."""
-  p = copy.deepcopy(prog)
+  p = Unshared(prog)
   for pred in p['preds']:
     rules = pred['rules']
     if pred['inline'] or len(rules) < 2 or not all(r['body'] for r in rules):
